@@ -104,6 +104,8 @@ pub struct State {
 #[derive(Default)]
 pub struct ScriptFs {
     pub st: Mutex<State>,
+    /// when set, id_remap translates every caller (uid + 100000, gid + 200000) like an id-mapping filesystem does
+    pub remap: std::sync::atomic::AtomicBool,
 }
 
 fn ctxs(c: &Context) -> String {
@@ -698,7 +700,14 @@ impl FileSystem for ScriptFs {
     fn notify_reply(&self) -> io::Result<()> {
         Self::unit(self.log("notify_reply".to_string()))
     }
-    // id_remap*: trait defaults (no-ops), as for any plain filesystem
+    // id_remap: a no-op, as for any plain filesystem, unless the engine switches the translation on
+    fn id_remap(&self, ctx: &mut Context) -> io::Result<()> {
+        if self.remap.load(std::sync::atomic::Ordering::Relaxed) {
+            ctx.uid = ctx.uid.wrapping_add(100_000);
+            ctx.gid = ctx.gid.wrapping_add(200_000);
+        }
+        Ok(())
+    }
 }
 
 // ------------------------------------------------------------------------------------------------
